@@ -6,6 +6,8 @@ package sctp
 import (
 	"encoding/binary"
 	"errors"
+	"fmt"
+	"math"
 )
 
 // errorCauseHeader represents the shared header that is shared by all error causes.
@@ -22,7 +24,14 @@ const (
 // ErrInvalidSCTPChunk is returned when an SCTP chunk is invalid.
 var ErrInvalidSCTPChunk = errors.New("invalid SCTP chunk")
 
+// ErrErrorCauseTooLong is returned when an error cause does not fit its 16-bit length field.
+var ErrErrorCauseTooLong = errors.New("error cause does not fit the 16-bit cause length")
+
 func (e *errorCauseHeader) marshal() ([]byte, error) {
+	if len(e.raw)+errorCauseHeaderLength > math.MaxUint16 {
+		// the length field would wrap (and the copy below run past the buffer)
+		return nil, fmt.Errorf("%w: %d bytes", ErrErrorCauseTooLong, len(e.raw))
+	}
 	e.len = uint16(len(e.raw)) + uint16(errorCauseHeaderLength) //nolint:gosec // G115
 	raw := make([]byte, e.len)
 	binary.BigEndian.PutUint16(raw[0:], uint16(e.code))
